@@ -208,9 +208,37 @@ def check(case):
             if os.environ.get("MSV_DEBUG"):
                 print("REJECTED:\n" + src + "\n" + run.stdout[:600])
             return r
-        feats = [l for l in case["labels"] if l in ("caller-owns-same-name", "factory-local-shadows-module-var")]
+        feats = [l for l in case["labels"] if l in ("caller-owns-same-name", "factory-local-shadows-module-var") or l.startswith("feat:")]
         r.failure = fail("; ".join(fails) + "\n" + src, "C07:%s:%s:%s" % ("stdout" if run.stdout != out else "exit", run.klass, ",".join(feats)), sc, case={"source": src})
     return r
+
+
+def enumerated(tier, seed):
+    """fixed boundary programs of the statement (same model oracle)"""
+    D = lambda n, e, fl=(): ("decl", n, None, e, fl)
+    FFI = ("fn", [], FI)
+    # a middle function creates a closure over the OUTER x and only afterwards declares its own local x
+    late = [D("mk", ("fn", [], FFI, [D("x", I(1)),
+                                     D("f", ("fn", [], FI, [D("g", ("fn", [], "int", [("return", V("x"))])), D("x", I(50)), ("return", V("g"))])),
+                                     ("return", V("f"))])),
+            D("f", ("call", V("mk"), [])), D("g", ("call", V("f"), [])), ("print", ("call", V("g"), []))]
+    # the same with the owner still alive: the closure must still read the outer x
+    late_alive = [D("x", I(1)),
+                  D("f", ("fn", [], FI, [D("g", ("fn", [], "int", [("return", V("x"))])), D("x", I(50)), ("return", V("g"))])),
+                  D("g", ("call", V("f"), [])), ("print", ("call", V("g"), [])), D("x", I(2)), ("print", ("call", V("g"), []))]
+    # two closures of one factory call share the variable, two calls do not
+    shared = [D("mk", ("fn", [], ("list", FI), [D("c", I(0)),
+                                                 D("inc", ("fn", [], "int", [D("c", ("bin", "+", V("c"), I(1)), ("modify",)), ("return", V("c"))])),
+                                                 D("rd", ("fn", [], "int", [("return", V("c"))])),
+                                                 ("decl", "both", ("list", FI), ("list", [V("inc"), V("rd")]), ()), ("return", V("both"))])),
+              D("p", ("call", V("mk"), [])), D("q", ("call", V("mk"), [])),
+              D("pi", ("index", V("p"), I(0))), D("pg", ("index", V("p"), I(1))), D("qg", ("index", V("q"), I(1))),
+              ("print", ("call", V("pi"), [])), ("print", ("call", V("pi"), [])), ("print", ("call", V("pg"), [])), ("print", ("call", V("qg"), [])),
+              D("plain", ("fn", [], "int", [("return", I(1))])),
+              ("print", ("mcall", V("pg"), "is_closure", [])), ("print", ("mcall", V("plain"), "is_closure", []))]
+    return [{"stmts": late, "labels": ["feat:use-before-local-shadow"], "nt": True},
+            {"stmts": late_alive, "labels": ["feat:use-before-local-shadow-owner-alive"], "nt": True},
+            {"stmts": shared, "labels": ["fixed:shared-and-fresh-cells"], "nt": True}]
 
 
 def strategy(tier):
